@@ -13,6 +13,12 @@ SimDepth == %d
 SimEmit == (Len(hist) >= SimDepth) => PrintT(<<"CASE", ToJson(hist)>>)
 SimBound == now <= MaxNowC /\ Len(hist) < SimDepth
 SimEmitInv == SimEmit
+\* behaviours meant for replay: the clock moves only between requests (the replay driver runs each request at one
+\* instant; time passing between a request's two critical sections is covered by the recorded concurrent traces)
+SerialNext == (\E c \in Clients, s \in Shapes, f \in Fwds : Arrive(c, s, f))
+              \/ (\E i \in 1..Len(reqs) : Simple(i) \/ Check(i) \/ Settle(i))
+              \/ (reqs = <<>> /\ \E d \in Jumps : Advance(d))
+SerialSpec == Init /\ [][SerialNext]_vars
 '''
 # time unit 20 s: LockoutDuration 60 s = 3, MaxLockout = ResetAfter = 900 s = 45; requests only at even times
 LOCK = {"MaxFailures": 5, "Lockout": 3, "MaxLockout": 45, "ResetAfter": 45}
@@ -66,12 +72,12 @@ def gen(ck, name, auth, env, shapes, maxnow, maxhist, clients=("A",), jumps=(2,)
     cases = []
     kw = consts(auth, env, shapes, clients, jumps, fwds=fwds)
     if sim is None:
-        r = vf.tlc("auth", "AuthGate", kw, invariants=INVS, constraint="Bound2", view="View", action_constraint="Emit",
+        r = vf.tlc("auth", "AuthGate", kw, spec="SerialSpec", invariants=INVS, constraint="Bound2", view="View", action_constraint="Emit",
                    defs=DEFS % (maxnow, maxhist, 0), case_sink=cases.append, timeout=900)
         ck.expect_model_ok(name, r)
         ck.add_model(name, r)
     else:
-        r = vf.tlc("auth", "AuthGate", kw, invariants=INVS + ["SimEmitInv"], constraint="SimBound",
+        r = vf.tlc("auth", "AuthGate", kw, spec="SerialSpec", invariants=INVS + ["SimEmitInv"], constraint="SimBound",
                    defs=DEFS % (maxnow, maxhist, sim["depth"]), simulate={"num": sim["num"], "depth": sim["depth"] * 4},
                    seed=seed, workers=1, case_sink=cases.append, timeout=900)
         ck.expect_model_ok(name, r)
